@@ -23,7 +23,7 @@ def schema_root():
 def validate_docs(res):
     """Every emitted document against the published strict schema (jsonschema, tooling python)."""
     import jsonschema
-    p = os.path.join(VERIF, "replays", "C03", "docs.jsonl")
+    p = os.environ.get("VERIF_C03_DOCS") or os.path.join(VERIF, "replays", "C03", "docs.jsonl")
     if not os.path.exists(p):
         res.errors.append("bounded.c03 wrote no documents")
         return
